@@ -714,6 +714,14 @@ func (c *Ctx) checkReturn(fi *FuncInfo, con *Contract, rstate, entrySnap *State,
 			c.obls[len(c.obls)-1].ClauseAST = en.Expr
 			c.curGroup = ""
 		}
+		for k, ck := range con.Checks {
+			if len(ck.Props) > 0 && c.e.curProp != "" && !has(ck.Props, c.e.curProp) {
+				continue
+			}
+			if g, fits := c.evalLoopClause(post, ck, rstate); fits {
+				c.addObl(rstate, fmt.Sprintf("check#%d@ret%d", k, ri), "post", g, c.e.pos(fi.Decl.Pos()), "checks "+ck.Text, ck.Props)
+			}
+		}
 		if con.HasMod {
 			c.frameObligations(rstate, entrySnap, ri)
 		}
